@@ -110,6 +110,19 @@ def check(prog, rep):
             pr = bound_expr_problem(n.value)
             rep.ob("R08.2", "extract_bounds", pr is None, f"{src(n.targets[0])} is the declared bound (None only when it is None)" if pr is None else pr + ": linprog solves a different (less bounded) LP", loc=f"{eb.module.rel}:{n.lineno}", detail=f"bound-value:{src(n.targets[0])}")
     rep.ob("R08.4", "lp cache", not muts, "the cached LPData is only read, never modified in place", detail="cache-read-only", loc=None)
+    # artefacts built under one sense (negated callables, LPData.sense / sign of c) are only valid while the sense
+    # stands: every public edit of the sense must invalidate them (the must-analysis of C13 R13.1, re-evaluated here)
+    from ..report import Report as _Report
+    from . import c13 as _c13
+    _sub = _Report(rep.prop, rep.tier, quiet=True)
+    try:
+        _c13.check(prog, _sub)
+    except AnalysisError as e:
+        rep.undecided(f"sense-edit invalidation (C13 R13.1): {e}")
+    else:
+        for o in _sub.obs:
+            if o.rule == "R13.1" and o.construct in ("Problem.minimize", "Problem.maximize"):
+                rep.ob("R08.4", o.construct, o.ok, ("switching the sense invalidates what was built under the old one: " if o.ok else "a sense switch can keep artefacts built under the old sense (negated callables / LP data) while the reported value is un-negated under the new one: ") + o.msg, loc=o.loc, detail="sense-edit:" + o.detail)
     rep.expect_min("R08.1", 12)
     rep.expect_min("R08.2", 7)
     rep.expect_min("R08.3", 4)
